@@ -2,10 +2,12 @@
 # Builds the verification harness offline from files on disk.
 # Everything here is a cache warm-up except the first step: every check rebuilds what it needs.
 export CARGO_NET_OFFLINE=true
-cd /verif/harness || exit 1
+VERIF_ROOT="$(cd "$(dirname "${BASH_SOURCE[0]}")" && pwd)"
+export VERIF_ROOT
+cd "$VERIF_ROOT/harness" || exit 1
 cargo build --release -p vcheck || exit 1
 # optional accelerators (a failure here is reported by the corresponding check, not by setup)
-/verif/tools/build_features.sh || echo "setup: feature builds failed (C16 will report)"
-( cd /verif/harness/fuzzhost && cargo +nightly fuzz build session --target-dir /verif/harness/target/fuzz >/dev/null 2>&1 ) || echo "setup: fuzz build unavailable (C03 degrades to its proptest part)"
-/verif/harness/target/release/vcheck --warm || true
+"$VERIF_ROOT/tools/build_features.sh" || echo "setup: feature builds failed (C16 will report)"
+( cd "$VERIF_ROOT/harness/fuzzhost" && cargo +nightly fuzz build session --target-dir "$VERIF_ROOT/harness/target/fuzz" >/dev/null 2>&1 ) || echo "setup: fuzz build unavailable (C03 degrades to its proptest part)"
+"$VERIF_ROOT/harness/target/release/vcheck" --warm || true
 exit 0
